@@ -492,6 +492,9 @@ def _rel(name, f):
                         o = {"Less": -1, "Equal": 0, "Greater": 1}[r.fields["0"].variant]
                         return f(o, 0)
             raise Unsupported("no PartialOrd impl found for %s" % x.path)
+        if isinstance(x, Adt) and isinstance(y, Adt) and x.path == y.path and x.path not in m.facts.adts \
+                and list(x.fields) == ["0"] and isinstance(x.fields["0"], int) and isinstance(y.fields["0"], int):
+            return f(x.fields["0"], y.fields["0"])      # foreign integer newtype with derived ordering
         if not isinstance(x, (int, str, tuple)):
             return NOT_HANDLED
         return f(x, y)
@@ -1208,6 +1211,10 @@ def _replace(m, a, c):
     x = a[0]
     if isinstance(x, MutRef):
         old = x.get()
+        if isinstance(old, Adt):
+            old = Adt(old.path, old.variant, dict(old.fields))   # the place may be updated in place
+        elif isinstance(old, PyVec):
+            old = PyVec(list(old.items))
         x.set(a[1])
         return old
     x = deref(x)
@@ -2076,3 +2083,11 @@ def _array_try_from(m, a, c):
             return ok(v)
         return err(Term("TryFromSliceError"))
     return NOT_HANDLED
+
+
+@reg("std::result::Result::<T, E>::err")
+def _res_err(m, a, c):
+    v = deref(a[0])
+    if isinstance(v, Term):
+        return Term("err", v)
+    return some(v.fields["0"]) if v.variant == "Err" else NONE
